@@ -280,3 +280,210 @@ Proof.
 Qed.
 #[export] Hint Resolve add_child_qi : qi.
 #[export] Hint Extern 1 (hb_ok _ = true) => reflexivity : qi.
+
+(* ================================================================== the html block scanners answer 1..7 *)
+Lemma pick_rule_in : forall rules w best n x, Re2c.pick_rule rules w best = Some (n, x) -> In x rules \/ best = Some (n, x).
+Proof.
+  induction rules as [|a r IH]; intros w best n x H; cbn [Re2c.pick_rule] in H; [now right|].
+  apply IH in H. destruct H as [H|H]; [left; now right|].
+  destruct (Regex.longest_match (Re2c.rule_re a) w) as [k|]; [|now right].
+  destruct best as [[m y]|]; [destruct (Nat.ltb m k)|]; try (now right); inversion H; subst; left; now left.
+Qed.
+
+Lemma run_rules_act rules d pad s : In (Re2c.o_act (Re2c.run_rules rules d pad s)) (d :: map Re2c.rule_act rules).
+Proof.
+  unfold Re2c.run_rules. cbv zeta. destruct (Re2c.pick_rule rules _ None) as [[L x]|] eqn:E; [|now left].
+  apply pick_rule_in in E. destruct E as [E|E]; [|discriminate E]. right.
+  assert (In (Re2c.rule_act x) (map Re2c.rule_act rules)) as H by (now apply in_map).
+  destruct x; [exact H | destruct (Re2c.split_go _ _ _ _); exact H | destruct (Re2c.split_go _ _ _ _); exact H].
+Qed.
+
+Lemma scan_html_block_start_range s m : scan_html_block_start s = Some m -> 1 <= m <= 6.
+Proof.
+  unfold scan_html_block_start, as_opt_usize.
+  pose proof (run_rules_act ScannersRe.rules_html_block_start ScannersRe.default_html_block_start ScannersRe.pad_html_block_start s) as H.
+  revert H. generalize (Re2c.run_rules ScannersRe.rules_html_block_start ScannersRe.default_html_block_start ScannersRe.pad_html_block_start s) as oc.
+  intros oc H E.
+  unfold ScannersRe.rules_html_block_start, ScannersRe.default_html_block_start in H. cbn [map Re2c.rule_act In] in H. repeat (destruct H as [H|H]; [rewrite <- H in E; first [discriminate E | inversion E; lia]|]). destruct H.
+Qed.
+
+Lemma scan_html_block_start_7_range s m : scan_html_block_start_7 s = Some m -> m = 7.
+Proof.
+  unfold scan_html_block_start_7, as_opt_usize.
+  pose proof (run_rules_act ScannersRe.rules_html_block_start_7 ScannersRe.default_html_block_start_7 ScannersRe.pad_html_block_start_7 s) as H.
+  revert H. generalize (Re2c.run_rules ScannersRe.rules_html_block_start_7 ScannersRe.default_html_block_start_7 ScannersRe.pad_html_block_start_7 s) as oc.
+  intros oc H E.
+  unfold ScannersRe.rules_html_block_start_7, ScannersRe.default_html_block_start_7 in H. cbn [map Re2c.rule_act In] in H. repeat (destruct H as [H|H]; [rewrite <- H in E; first [discriminate E | inversion E; reflexivity]|]). destruct H.
+Qed.
+
+Lemma hb_ok_range m : 1 <= m <= 7 -> hb_ok (HtmlBlock (N.of_nat (m mod 256)) []) = true.
+Proof. intro H. assert (m = 1 \/ m = 2 \/ m = 3 \/ m = 4 \/ m = 5 \/ m = 6 \/ m = 7) as C by lia. repeat (destruct C as [->|C]; [reflexivity|]). subst. reflexivity. Qed.
+
+(* ================================================================== check_open_blocks *)
+Lemma skip_one_space_qi st line site st' : skip_one_space st line site = Ok st' -> QI st -> QI st'.
+Proof. unfold skip_one_space. intros H P. qigo H. Qed.
+#[export] Hint Resolve skip_one_space_qi : qi.
+Lemma parse_block_quote_prefix_qi o st line b st' : parse_block_quote_prefix o st line = Ok (b, st') -> QI st -> QI st'.
+Proof. unfold parse_block_quote_prefix. intros H P. qigo H. Qed.
+#[export] Hint Resolve parse_block_quote_prefix_qi : qi.
+Lemma parse_footnote_prefix_qi st line b st' : parse_footnote_definition_block_prefix st line = Ok (b, st') -> QI st -> QI st'.
+Proof. unfold parse_footnote_definition_block_prefix. intros H P. qigo H. Qed.
+#[export] Hint Resolve parse_footnote_prefix_qi : qi.
+Lemma parse_item_prefix_qi st line c mo pad b st' : parse_item_prefix st line c mo pad = Ok (b, st') -> QI st -> QI st'.
+Proof. unfold parse_item_prefix. intros H P. qigo H. Qed.
+#[export] Hint Resolve parse_item_prefix_qi : qi.
+Lemma skip_fence_offset_qi line site : forall i st st', skip_fence_offset i st line site = Ok st' -> QI st -> QI st'.
+Proof. induction i as [|j IH]; intros st st' H P; cbn [skip_fence_offset] in H; qigo H. Qed.
+#[export] Hint Resolve skip_fence_offset_qi : qi.
+Lemma parse_code_block_prefix_qi o st line c cb a b st' : parse_code_block_prefix o st line c cb = Ok (a, b, st') -> QI st -> QI st'.
+Proof. unfold parse_code_block_prefix. intros H P. qigo H. Qed.
+#[export] Hint Resolve parse_code_block_prefix_qi : qi.
+Lemma parse_mbq_prefix_qi o st line c fl fo a b st' : parse_multiline_block_quote_prefix o st line c fl fo = Ok (a, b, st') -> QI st -> QI st'.
+Proof. unfold parse_multiline_block_quote_prefix. intros H P. qigo H. Qed.
+#[export] Hint Resolve parse_mbq_prefix_qi : qi.
+Lemma check_container_qi o st line c a b st' : check_container o st line c = Ok (a, b, st') -> QI st -> QI st'.
+Proof. unfold check_container. intros H P. destruct (bval c); qigo H. Qed.
+#[export] Hint Resolve check_container_qi : qi.
+Lemma check_open_blocks_inner_qi o line : forall fuel st container a c b st',
+  check_open_blocks_inner fuel o st line container = Ok (a, c, b, st') -> QI st -> QI st'.
+Proof. induction fuel as [|f IH]; intros st container a c b st' H P; cbn [check_open_blocks_inner] in H; qigo H. Qed.
+#[export] Hint Resolve check_open_blocks_inner_qi : qi.
+Lemma check_open_blocks_qi o st line r st' : check_open_blocks o st line = Ok (r, st') -> QI st -> QI st'.
+Proof. unfold check_open_blocks. intros H P. qigo H. Qed.
+#[export] Hint Resolve check_open_blocks_qi : qi.
+
+(* ================================================================== tables *)
+Lemma is_paragraph_val c : is_paragraph c = true -> bval c = Paragraph.
+Proof. unfold is_paragraph. destruct (bval c); try discriminate; reflexivity. Qed.
+
+Lemma copy_line_offsets_length : forall n lo k r, copy_line_offsets n lo k = Ok r -> List.length r = n.
+Proof.
+  induction n as [|m IH]; intros lo k r H; cbn [copy_line_offsets] in H; [now inversion H|].
+  destruct (nth_error lo k); [|discriminate H]. mstep H. inversion H; subst. cbn. f_equal. eapply IH; eassumption.
+Qed.
+
+Definition trivial_val (v : node_value) : bool := match v with HtmlBlock _ _ | Paragraph => false | _ => true end.
+Lemma Qn_trivial i : trivial_val (bi_val i) = true -> Qn i.
+Proof. unfold Qn. destruct (bi_val i); try discriminate; intros _; (split; [reflexivity | discriminate]). Qed.
+
+Lemma try_inserting_qi st c po st' :
+  try_inserting_table_header_paragraph st c po = Ok st' ->
+  (forall cn, get st c = Ok cn -> is_paragraph cn = true) -> QI st -> QI st'.
+Proof.
+  unfold try_inserting_table_header_paragraph. intros H Hc P.
+  destruct (get st c) as [cn| |] eqn:G; cbn [bind] in H; try discriminate H.
+  pose proof (is_paragraph_val _ (Hc _ eq_refl)) as Bv. pose proof (get_qn _ _ _ P G) as [_ Qc].
+  unfold bval in Bv. destruct (Qc Bv) as [Q1 Q2].
+  mstep H; [discriminate H|]. cbv zeta in H. rewrite trim_ok in H. cbn [bind] in H.
+  mon H; monall; try exact P.
+  match goal with M : modify_info _ _ _ = Ok ?s |- _ => assert (P1 : QI s) end.
+  { eapply modify_info_qi; [eassumption | | apply QI_st_next; exact P]. qn_side. }
+  eapply edit_root_qi; [eassumption | exact P1 |].
+  intros pk pre x post K. cbv beta. destruct (can_contain pk KParagraph); [|exact K].
+  apply Forall_app in K. destruct K as [K1 K2]. apply Forall_app. split; [exact K1|].
+  cbn [app]. constructor; [|exact K2]. apply all_info_node. split; [|constructor].
+  unfold Qn. cbn. split; [reflexivity|]. intros _.
+  match goal with U : Blocks.from_utf8 _ _ = Ok _ |- _ => unfold Blocks.from_utf8 in U; match type of U with (if ?bb then _ else _) = _ => destruct bb; [|discriminate U] end; inversion U; subst end.
+  match goal with C : copy_line_offsets _ _ _ = Ok _ |- _ => rewrite (copy_line_offsets_length _ _ _ _ C) end.
+  split.
+  - apply nonul_trim, nonul_unescape_pipes, nonul_firstn. exact Q1.
+  - apply cnl_trim.
+Qed.
+
+Lemma header_cells_qn : forall cells id ln sl sc po l, header_cells cells id ln sl sc po = Ok l -> Forall (all_info Qn) l.
+Proof.
+  induction cells as [|c r IH]; intros id ln sl sc po l H; cbn [header_cells] in H.
+  - inversion H. constructor.
+  - mon H. constructor; [|eapply IH; eassumption].
+    apply all_info_node. split; [|constructor]. apply Qn_trivial. reflexivity.
+Qed.
+
+Lemma try_opening_header_qi o st c line r st' :
+  try_opening_header o st c line = Ok (r, st') ->
+  (forall cn, get st c = Ok cn -> is_paragraph cn = true) -> QI st -> QI st'.
+Proof.
+  unfold try_opening_header. intros H Hc P.
+  destruct (get st c) as [cn0| |] eqn:G0; cbn [bind] in H; try discriminate H.
+  pose proof (Hc _ eq_refl) as Hp. clear Hc.
+  mon H; monall; try exact P;
+  match goal with
+  | I : try_inserting_table_header_paragraph _ _ _ = Ok ?s |- _ =>
+    assert (P1 : QI s)
+      by (eapply try_inserting_qi; [exact I | intros cn' G'; rewrite G0 in G'; inversion G'; subst; exact Hp | exact P])
+  | _ => pose proof P as P1
+  end;
+  (eapply edit_root_qi; [eassumption | eauto 10 with qi |]);
+  intros pk pre x post K; cbv beta; (destruct (is_paragraph x); [|exact K]);
+  apply Forall_app in K; destruct K as [K1 K2]; inversion K2; subst;
+  apply Forall_app; (split; [exact K1|]); cbn [app]; (constructor; [|assumption]);
+  apply all_info_node; (split; [apply Qn_trivial; reflexivity|]);
+  (constructor; [|constructor]); apply all_info_node;
+  (split; [apply Qn_trivial; reflexivity|]);
+  eapply header_cells_qn; eassumption.
+Qed.
+
+Lemma row_cells_qn : forall n cells id ln sc lc l lc', row_cells n cells id ln sc lc = Ok (l, lc') -> Forall (all_info Qn) l.
+Proof.
+  induction n as [|m IH]; intros cells id ln sc lc l lc' H; cbn [row_cells] in H.
+  - destruct cells; inversion H; subst; constructor.
+  - destruct cells as [|c r]; [inversion H; subst; constructor|].
+    mon H. repeat match goal with p : (_ * _)%type |- _ => destruct p end. cbn [fst snd] in *.
+    constructor; [|eapply IH; eassumption]. apply all_info_node. split; [|constructor]. apply Qn_trivial. reflexivity.
+Qed.
+
+Lemma filler_cells_qn : forall n id ln lc, Forall (all_info Qn) (filler_cells n id ln lc).
+Proof.
+  induction n as [|m IH]; intros id ln lc; cbn [filler_cells]; constructor; [|apply IH].
+  apply all_info_node. split; [|constructor]. apply Qn_trivial. reflexivity.
+Qed.
+
+Lemma try_opening_row_qi o st c t line r st' : try_opening_row o st c t line = Ok (r, st') -> QI st -> QI st'.
+Proof.
+  unfold try_opening_row. intros H P.
+  mon H; monall; try exact P.
+  match goal with M : modify _ _ _ = Ok ?s |- _ => assert (QI s) end.
+  { eapply modify_qi; [apply QI_st_next; exact P | eassumption |].
+    intros nn Fn An. destruct nn as [i ch]. apply all_info_node in An. destruct An as [Ai Ak].
+    apply all_info_node. split; [apply Qn_trivial; reflexivity|].
+    apply Forall_app. split; [exact Ak|]. constructor; [|constructor].
+    apply all_info_node. split; [apply Qn_trivial; reflexivity|].
+    apply Forall_app. split; [eapply row_cells_qn; eassumption | apply filler_cells_qn]. }
+  eauto 10 with qi.
+Qed.
+
+Lemma try_opening_block_qi o st c line r st' : try_opening_block o st c line = Ok (r, st') -> QI st -> QI st'.
+Proof.
+  unfold try_opening_block. intros H P.
+  destruct (get st c) as [cn| |] eqn:G; cbn [bind] in H; try discriminate H.
+  destruct (bval cn) eqn:Bv; try (inversion H; subst; exact P).
+  - eapply try_opening_header_qi; [exact H | | exact P].
+    intros cn' G'. rewrite G in G'. inversion G'; subst. unfold is_paragraph. now rewrite Bv.
+  - eapply try_opening_row_qi; [exact H | exact P].
+Qed.
+
+(* ================================================================== description lists *)
+Lemma reopen_qi : forall fuel st id st', reopen_ast_nodes fuel st id = Ok st' -> QI st -> QI st'.
+Proof. induction fuel as [|f IH]; intros st id st' H P; cbn [reopen_ast_nodes] in H; qigo H. Qed.
+#[export] Hint Resolve reopen_qi : qi.
+
+Lemma parse_desc_list_details_qi o st c m b c' st' : parse_desc_list_details o st c m = Ok (b, c', st') -> QI st -> QI st'.
+Proof.
+  unfold parse_desc_list_details. intros H P.
+  destruct (get st c) as [cn| |] eqn:G; cbn [bind] in H; try discriminate H.
+  match type of H with bind ?r _ = _ => destruct r as [[[[tight c1] lc]|]| |] eqn:R; cbn [bind] in H; try discriminate H end;
+    [|inversion H; subst; exact P].
+  assert (Alc : all_info Qn lc).
+  { pose proof (get_allq _ _ _ P G) as Ac.
+    destruct (last_opt (bkids cn)) eqn:Lk.
+    - inversion R; subst. eapply last_kid_all; eassumption.
+    - mon R. eapply last_kid_all; [eapply get_allq; [exact P | eassumption] | eassumption]. }
+  clear R.
+  destruct (bval lc) eqn:Bl; try (inversion H; subst; exact P).
+  - (* DescriptionItem *) qigo H.
+  - (* Paragraph *)
+    mon H; monall; repeat match goal with p : (_ * _)%type |- _ => destruct p end; cbn [fst snd] in *;
+    match goal with A : add_child_gen _ ?s _ DescriptionTerm _ _ _ = Ok (_, ?s') |- _ =>
+      assert (QI s -> QI s') by
+        (intro; eapply add_child_gen_qi; [exact A | auto | reflexivity | constructor; [exact Alc | constructor] | assumption])
+    end; eauto 20 with qi.
+Qed.
